@@ -173,6 +173,18 @@ func ruleC11Stable(c *Ctx, r *Rep) {
 					return true
 				}
 				nm := calleeName(info, call)
+				// selection helpers whose tie-breaking is fixed by the library, not by jq: slices.MaxFunc returns the FIRST maximal
+				// element, jq's max/max_by the LAST (and agrees with `sort | last`); with Compare as comparator, elements that
+				// compare equal are still distinguishable (1 and 1.0, `1e2` and `100`)
+				if nm == "slices.MaxFunc" { // slices.MinFunc returns the first minimal element, which is jq's min
+					for _, a := range call.Args {
+						if callsFunc(c, info, a, "gojq.Compare") != "" || strings.HasSuffix(c.Src(a), "Compare") {
+							n++
+							r.Bad(declKey(fd)+":"+nm, call.Pos(), "%s in %s selects an extreme with Compare: among elements that compare equal it returns the first, jq's max the last (max must agree with max_by(.) and sort|last); equal elements can differ in spelling (1, 1.0, 1e0)", nm, declKey(fd))
+						}
+					}
+					return true
+				}
 				if !(strings.HasPrefix(nm, "sort.") || strings.HasPrefix(nm, "slices.Sort")) || strings.HasPrefix(nm, "sort.Search") {
 					return true
 				}
